@@ -55,7 +55,7 @@ def fault_specs(ctx):
     for s, o in zip(base, bobs):
         if o.get("spin") or not o.get("npos"):
             continue
-        if s["cb"] not in ("ret", "slow"):
+        if s["cb"] not in ("ret", "slow") and not thorough:
             continue
         npos = o["npos"]
         fl = list(faults) + (["sorry"] if s["client"] == "ebyte" and s["cb"] == "ret" else [])
